@@ -37,8 +37,11 @@ class BernoulliLikelihood(_OneDimensionalLikelihood):
         return super().__init__()
 
     def forward(self, function_samples: Tensor, *args: Any, **kwargs: Any) -> Bernoulli:
-        output_probs = base_distributions.Normal(0, 1).cdf(function_samples)
-        return base_distributions.Bernoulli(probs=output_probs)
+        # logits = log Phi(f) - log Phi(-f).  Bernoulli(probs=Phi(f)) clamps the probabilities to [eps, 1 - eps]:
+        # log p(y | f) was floored at log(eps) = -36.04 with a zero gradient for confidently contradicted labels
+        log_p1 = torch.special.log_ndtr(function_samples)
+        log_p0 = torch.special.log_ndtr(-function_samples)
+        return base_distributions.Bernoulli(logits=log_p1 - log_p0)
 
     def log_marginal(
         self, observations: Tensor, function_dist: MultivariateNormal, *args: Any, **kwargs: Any
